@@ -27,6 +27,7 @@ type Peer struct {
 	ChunkPlan []int
 	OnRecv func(r RecvMsg)
 	rest   []byte
+	CL     *ConnLog
 }
 
 type RecvMsg struct {
@@ -98,15 +99,22 @@ func (p *Peer) Drop() {
 	p.EP = nil
 }
 
-// Collect takes what the engine wrote since the last call, splits it into frames, records them.
+// Collect takes what the engine wrote since the last call (recorded at write time by the
+// connection log), and returns it as messages.
 func (p *Peer) Collect() []RecvMsg {
 	if p.EP == nil {
 		return nil
 	}
+	p.EP.TakeOut() // the driver "receives" the bytes
+	cr := p.CL.Of(p.EP)
+	if cr == nil {
+		return nil
+	}
+	ws, _ := cr.Snapshot()
 	var out []RecvMsg
-	ws, ats := p.EP.TakeOutTimed()
-	for wi, w := range ws {
-		buf := append(p.rest, w...)
+	for ; cr.cursor < len(ws); cr.cursor++ {
+		w := ws[cr.cursor]
+		buf := append(p.rest, w.Frame...)
 		frames, rest := wire.SplitFrames(buf)
 		p.rest = rest
 		for _, f := range frames {
@@ -119,8 +127,7 @@ func (p *Peer) Collect() []RecvMsg {
 				p.env.Stat("byproduct_bad_envelope")
 				p.env.Rec("peer", "bad-envelope", err.Error()+" "+string(f), true)
 			}
-			r := RecvMsg{Msg: m, Conn: p.Conn, At: ats[wi]}
-			r.N = p.env.Rec(fmt.Sprintf("wire:%d", p.Conn), "engine>", string(f), true)
+			r := RecvMsg{Msg: m, Conn: p.Conn, At: w.At, N: w.N}
 			p.Recv = append(p.Recv, r)
 			if !m.PossDup() {
 				if s := m.Seq(); s >= p.InExp {
@@ -232,7 +239,7 @@ func (p *Peer) SendRaw(b []byte, o MsgOpt) []RecvMsg {
 	}
 	m, _ := wire.Scan(b)
 	s := SentMsg{Msg: m, Conn: p.Conn, At: time.Now(), Opt: o}
-	s.N = p.env.Rec(fmt.Sprintf("wire:%d", p.Conn), "peer>", string(b), true)
+	s.N = p.env.Rec(fmt.Sprintf("peer>:%d", p.Conn), "peer>", string(b), true)
 	p.Sent = append(p.Sent, s)
 	if len(p.ChunkPlan) == 0 {
 		p.EP.Feed(b)
